@@ -247,7 +247,9 @@ def join_byte_intervals(
         # are contained in blocks, add a block covering anything not
         # yet covered by the last block.
         if last_block is not None:
-            padding_block_offset = last_block.offset + last_block.size
+            padding_block_offset = max(
+                b.offset + b.size for b in destination.blocks
+            )
             padding_block_size = (
                 len(destination.contents) - padding_block_offset
             )
